@@ -151,6 +151,7 @@ def c08(ctx):
     n, b = scale(ctx, (3000, 4), (8000, 16))
     sem.split_batches(ctx, "save", "c08", n, b)
     sem.trace_batches(ctx, "save", "MachineTrace_C08.cfg", n, min(b, 4))
+    sem.scale_sem(ctx, "save", "MachineTrace_C08.cfg", scale(ctx, 1500, 15000))
     return ctx.finish("model_checking", "scripts of the 'save' corpus (1-5 statements, saves placed anywhere among probing sends: send-all and exact sends, with and "
                       "without bounded overdraft, balances negative/zero/positive); one evaluation = one save-split (whole vs prefix + suffix on the TLC-printed "
                       "visible balance, with the save-deleted control); non-trivial = the statements after the save produce postings")
